@@ -3,20 +3,26 @@ package processor
 
 // Verification harness (injected with `go test -overlay`; not part of the repository).
 // Runs the real Processor.Run of the sql-processor add-on under testing/synctest with in-package fakes for
-// Lister / Decoder / Store / Writer, injects the transient failures named by TLC-generated schedules
+// Lister / Store / Writer; the Decoder is the module's REAL S3 segment decoder over an in-memory object store, injects the transient failures named by TLC-generated schedules
 // (keyed "cycle:segment:op"), and records one ndjson line per external call the loop made.
 
 import (
 	"bufio"
+	"bytes"
 	"context"
+	"encoding/binary"
 	"encoding/json"
 	"errors"
 	"fmt"
+	"io"
 	"os"
 	"sync"
 	"testing"
 	"testing/synctest"
 	"time"
+
+	"github.com/aws/aws-sdk-go-v2/aws"
+	"github.com/aws/aws-sdk-go-v2/service/s3"
 
 	"github.com/kafscale/platform/addons/processors/sql-processor/internal/checkpoint"
 	"github.com/kafscale/platform/addons/processors/sql-processor/internal/decoder"
@@ -29,8 +35,9 @@ const pvProc = "sql"
 type pvSched struct {
 	Store  string   `json:"store"`  // "noop": the module's own placeholder store (wrapped); "etcd": in-memory, -1 when absent
 	Cycles int      `json:"cycles"` // polling ticks to run
-	Faults []string `json:"faults"` // "c:seg:op" (op = list|load|decode|write|commit), "c:seg:lfs:off"
+	Faults []string `json:"faults"` // "c:seg:op" (op = list|load|decode|trunc|write|commit), "c:seg:lfs:off", "c:0:claim:p", "c:0:lose"
 	Segs   [][]int  `json:"segs"`   // offsets per segment, list order
+	Parts  []int    `json:"parts"`  // partition of each segment
 }
 
 var errPvInjected = errors.New("verif: injected transient failure")
@@ -41,9 +48,27 @@ type pvWorld struct {
 	faults map[string]bool
 	hit    map[string]bool
 	segs   [][]int
+	parts  []int
 	cyc    int // number of ListCompleted calls so far
-	seg    int // number of LoadOffset calls in this cycle (= index of the segment being processed)
+	seg    int // list index (1-based) of the segment being processed: guessed at LoadOffset, fixed by the Decode key
+	loads  int // LoadOffset calls in this cycle
+	lease  int // partition of the lease the loop holds (-1: none), as granted / released through the store
+	asked  map[string]bool
+	start  time.Time
 	bad    string
+}
+
+// nthSegOf returns the list index (1-based) of the n-th segment of partition p (0 if there is none).
+func (w *pvWorld) nthSegOf(p, n int) int {
+	for i, q := range w.parts {
+		if q == p {
+			n--
+			if n == 0 {
+				return i + 1
+			}
+		}
+	}
+	return 0
 }
 
 func (w *pvWorld) fail(op string, extra ...int) bool {
@@ -68,61 +93,167 @@ func (l *pvLister) ListCompleted(ctx context.Context) ([]discovery.SegmentRef, e
 	w.mu.Lock()
 	defer w.mu.Unlock()
 	w.cyc++
-	w.seg = 0
+	w.seg, w.loads = 0, 0
 	if w.fail("list") {
 		w.emit(map[string]any{"ev": "List", "c": w.cyc, "ok": false})
 		return nil, errPvInjected
 	}
 	out := make([]discovery.SegmentRef, 0, len(w.segs))
 	for i, offs := range w.segs {
-		out = append(out, discovery.SegmentRef{Topic: "t", Partition: 0, BaseOffset: int64(offs[0]),
+		out = append(out, discovery.SegmentRef{Topic: "t", Partition: int32(w.parts[i]), BaseOffset: int64(offs[0]),
 			SegmentKey: fmt.Sprintf("seg-%d", i+1), IndexKey: fmt.Sprintf("idx-%d", i+1)})
 	}
 	w.emit(map[string]any{"ev": "List", "c": w.cyc, "ok": true})
 	return out, nil
 }
 
-type pvDecoder struct{ w *pvWorld }
+// pvObjects is the object store under the REAL segment decoder of this module (decoder.s3Decoder: getObject + decodeSegment):
+// it serves genuine KAFS segment bytes; "decode" makes the GetObject request fail, "trunc" delivers the first part of the
+// body and then fails the read (connection reset in the middle of the transfer).
+type pvObjects struct{ w *pvWorld }
 
-func (d *pvDecoder) Decode(ctx context.Context, segmentKey, indexKey string, topic string, partition int32) ([]decoder.Record, error) {
-	w := d.w
+type pvBrokenBody struct{}
+
+func (pvBrokenBody) Read(p []byte) (int, error) { return 0, io.ErrUnexpectedEOF }
+
+func (o *pvObjects) GetObject(ctx context.Context, params *s3.GetObjectInput, _ ...func(*s3.Options)) (*s3.GetObjectOutput, error) {
+	w := o.w
 	w.mu.Lock()
 	defer w.mu.Unlock()
 	var seg int
-	fmt.Sscanf(segmentKey, "seg-%d", &seg)
-	if seg != w.seg {
-		w.bad = fmt.Sprintf("Decode(%s) while the %d-th LoadOffset of the cycle is current", segmentKey, w.seg)
-	}
+	fmt.Sscanf(aws.ToString(params.Key), "seg-%d", &seg)
+	w.seg = seg // the key is authoritative (a loop that does not load per segment is still traced correctly)
 	if w.fail("decode") {
-		w.emit(map[string]any{"ev": "Decode", "c": w.cyc, "seg": seg, "ok": false})
+		w.emit(map[string]any{"ev": "Decode", "c": w.cyc, "seg": seg, "ok": false, "kind": "err"})
 		return nil, errPvInjected
 	}
-	var out []decoder.Record
-	for _, o := range w.segs[seg-1] {
-		out = append(out, decoder.Record{Topic: "t", Partition: 0, Offset: int64(o), Timestamp: int64(1000 + o), Value: []byte(fmt.Sprintf("v%d", o))})
+	data, firstFrameEnd := pvSegmentBytes(w.segs[seg-1])
+	if w.fail("trunc") {
+		w.emit(map[string]any{"ev": "Decode", "c": w.cyc, "seg": seg, "ok": false, "kind": "trunc"})
+		cut := firstFrameEnd + 20
+		if cut > len(data)-1 {
+			cut = len(data) - 1
+		}
+		return &s3.GetObjectOutput{Body: io.NopCloser(io.MultiReader(bytes.NewReader(data[:cut]), pvBrokenBody{}))}, nil
 	}
-	w.emit(map[string]any{"ev": "Decode", "c": w.cyc, "seg": seg, "ok": true})
-	return out, nil
+	w.emit(map[string]any{"ev": "Decode", "c": w.cyc, "seg": seg, "ok": true, "kind": "ok"})
+	return &s3.GetObjectOutput{Body: io.NopCloser(bytes.NewReader(data))}, nil
+}
+
+func pvVarint(v int64) []byte {
+	u := uint64((v << 1) ^ (v >> 63))
+	var out []byte
+	for {
+		b := byte(u & 0x7f)
+		u >>= 7
+		if u != 0 {
+			b |= 0x80
+		}
+		out = append(out, b)
+		if u == 0 {
+			return out
+		}
+	}
+}
+
+// pvSegmentBytes: a KAFS segment (32-byte header, one framed single-record batch per offset, 16-byte footer);
+// also returns the offset at which the first frame ends.
+func pvSegmentBytes(offs []int) ([]byte, int) {
+	header := make([]byte, 32)
+	copy(header, "KAFS")
+	seg := append([]byte{}, header...)
+	first := 0
+	for _, o := range offs {
+		value := []byte(fmt.Sprintf("v%d", o))
+		var rec bytes.Buffer
+		rec.WriteByte(0)       // attributes
+		rec.Write(pvVarint(0)) // timestamp delta
+		rec.Write(pvVarint(0)) // offset delta
+		rec.Write(pvVarint(1)) // key length
+		rec.WriteByte('k')
+		rec.Write(pvVarint(int64(len(value))))
+		rec.Write(value)
+		rec.Write(pvVarint(0)) // header count
+		record := append(pvVarint(int64(rec.Len())), rec.Bytes()...)
+		const batchHeaderLen = 61
+		rest := make([]byte, batchHeaderLen-12)
+		binary.BigEndian.PutUint64(rest[27-12:35-12], uint64(1000+o)) // first timestamp
+		binary.BigEndian.PutUint32(rest[57-12:61-12], 1)              // record count
+		frame := make([]byte, 12, 12+len(rest)+len(record))
+		binary.BigEndian.PutUint64(frame[0:8], uint64(o))
+		binary.BigEndian.PutUint32(frame[8:12], uint32(len(rest)+len(record)))
+		frame = append(frame, rest...)
+		frame = append(frame, record...)
+		seg = append(seg, frame...)
+		if first == 0 {
+			first = len(seg)
+		}
+	}
+	footer := make([]byte, 16)
+	copy(footer[12:], "END!")
+	return append(seg, footer...), first
 }
 
 type pvStore struct {
 	w     *pvWorld
 	inner checkpoint.Store // non-nil: the module's placeholder store decides what is loaded / kept
-	have  bool
-	off   int64
+	offs  map[int32]int64
 }
 
 func (s *pvStore) ClaimLease(ctx context.Context, topic string, partition int32, ownerID string) (checkpoint.Lease, error) {
+	w := s.w
+	w.mu.Lock()
+	defer w.mu.Unlock()
+	k := fmt.Sprintf("%d:0:claim:%d", w.cyc, partition)
+	first := !w.asked[k]
+	w.asked[k] = true
+	if w.faults[k] { // held by another worker for this whole cycle (the loop asks once per listed segment)
+		w.hit[k] = true
+		if first {
+			w.emit(map[string]any{"ev": "Claim", "c": w.cyc, "p": partition, "ok": false})
+		}
+		return checkpoint.Lease{}, errPvInjected
+	}
+	w.lease = int(partition)
+	w.emit(map[string]any{"ev": "Claim", "c": w.cyc, "p": partition, "ok": true})
 	return checkpoint.Lease{Topic: topic, Partition: partition, OwnerID: ownerID}, nil
 }
-func (s *pvStore) RenewLease(ctx context.Context, lease checkpoint.Lease) error   { return nil }
-func (s *pvStore) ReleaseLease(ctx context.Context, lease checkpoint.Lease) error { return nil }
+
+// RenewLease is called every 10 s by the renewal goroutine, i.e. at the instant of every second poll tick after the
+// claim.  A failing renewal answers one (virtual) second late, so the loss reaches the loop strictly between two ticks.
+func (s *pvStore) RenewLease(ctx context.Context, lease checkpoint.Lease) error {
+	w := s.w
+	w.mu.Lock()
+	c := int(time.Since(w.start) / (5 * time.Second))
+	k := fmt.Sprintf("%d:0:lose", c)
+	lose := w.faults[k]
+	if lose {
+		w.hit[k] = true
+	}
+	w.mu.Unlock()
+	if !lose {
+		return nil
+	}
+	time.Sleep(time.Second)
+	w.mu.Lock()
+	w.emit(map[string]any{"ev": "Lose", "c": c, "p": lease.Partition})
+	w.mu.Unlock()
+	return errPvInjected
+}
+
+func (s *pvStore) ReleaseLease(ctx context.Context, lease checkpoint.Lease) error {
+	s.w.mu.Lock()
+	s.w.lease = -1
+	s.w.mu.Unlock()
+	return nil
+}
 
 func (s *pvStore) LoadOffset(ctx context.Context, topic string, partition int32) (checkpoint.OffsetState, error) {
 	w := s.w
 	w.mu.Lock()
 	defer w.mu.Unlock()
-	w.seg++
+	w.loads++
+	w.seg = w.nthSegOf(int(partition), w.loads)
 	if w.fail("load") {
 		w.emit(map[string]any{"ev": "Load", "c": w.cyc, "seg": w.seg, "ok": false, "ret": -1})
 		return checkpoint.OffsetState{}, errPvInjected
@@ -135,8 +266,8 @@ func (s *pvStore) LoadOffset(ctx context.Context, topic string, partition int32)
 		}
 	} else {
 		st = checkpoint.OffsetState{Topic: topic, Partition: partition, Offset: -1}
-		if s.have {
-			st.Offset = s.off
+		if off, ok := s.offs[partition]; ok {
+			st.Offset = off
 		}
 	}
 	w.emit(map[string]any{"ev": "Load", "c": w.cyc, "seg": w.seg, "ok": true, "ret": st.Offset})
@@ -148,7 +279,7 @@ func (s *pvStore) CommitOffset(ctx context.Context, state checkpoint.OffsetState
 	w.mu.Lock()
 	defer w.mu.Unlock()
 	if w.fail("commit") {
-		w.emit(map[string]any{"ev": "Commit", "c": w.cyc, "seg": w.seg, "off": state.Offset, "ok": false})
+		w.emit(map[string]any{"ev": "Commit", "c": w.cyc, "seg": w.seg, "p": state.Partition, "off": state.Offset, "ok": false})
 		return errPvInjected
 	}
 	if s.inner != nil {
@@ -156,9 +287,9 @@ func (s *pvStore) CommitOffset(ctx context.Context, state checkpoint.OffsetState
 			w.bad = "placeholder store failed: " + err.Error()
 		}
 	} else {
-		s.have, s.off = true, state.Offset
+		s.offs[state.Partition] = state.Offset
 	}
-	w.emit(map[string]any{"ev": "Commit", "c": w.cyc, "seg": w.seg, "off": state.Offset, "ok": true})
+	w.emit(map[string]any{"ev": "Commit", "c": w.cyc, "seg": w.seg, "p": state.Partition, "off": state.Offset, "ok": true})
 	return nil
 }
 
@@ -169,17 +300,21 @@ func (k *pvSink) Write(ctx context.Context, records []sink.Record) error {
 	w.mu.Lock()
 	defer w.mu.Unlock()
 	offs := make([]int64, 0, len(records))
+	part := int32(-1)
 	for _, r := range records {
 		offs = append(offs, r.Offset)
-		if r.Topic != "t" || r.Partition != 0 || string(r.Payload) != fmt.Sprintf("v%d", r.Offset) {
+		if part == -1 {
+			part = r.Partition
+		}
+		if r.Topic != "t" || r.Partition != part || string(r.Payload) != fmt.Sprintf("v%d", r.Offset) {
 			w.bad = fmt.Sprintf("sink received a record that is not the decoded one: %+v", r)
 		}
 	}
 	if w.fail("write") {
-		w.emit(map[string]any{"ev": "Write", "c": w.cyc, "seg": w.seg, "offs": offs, "ok": false})
+		w.emit(map[string]any{"ev": "Write", "c": w.cyc, "seg": w.seg, "p": part, "offs": offs, "ok": false})
 		return errPvInjected
 	}
-	w.emit(map[string]any{"ev": "Write", "c": w.cyc, "seg": w.seg, "offs": offs, "ok": true})
+	w.emit(map[string]any{"ev": "Write", "c": w.cyc, "seg": w.seg, "p": part, "offs": offs, "ok": true})
 	return nil
 }
 
@@ -191,7 +326,7 @@ func (k *pvSink) Close(ctx context.Context) error {
 }
 
 func pvNewProcessor(w *pvWorld, st *pvStore) *Processor {
-	return &Processor{discover: &pvLister{w}, decode: &pvDecoder{w}, store: st, sink: &pvSink{w}, locks: newTopicLocker()}
+	return &Processor{discover: &pvLister{w}, decode: decoder.VerifNewS3Decoder(&pvObjects{w}, "bucket"), store: st, sink: &pvSink{w}, locks: newTopicLocker()}
 }
 
 func pvPlaceholderStore() checkpoint.Store { return checkpoint.New() }
@@ -226,13 +361,14 @@ func TestVerifProcessorReplay(t *testing.T) {
 		if err := json.Unmarshal(sc.Bytes(), &s); err != nil {
 			t.Fatal(err)
 		}
-		emit(map[string]any{"ev": "Reset", "proc": pvProc, "store": s.Store, "cycles": s.Cycles, "sched": n, "all": pvAll(s.Segs)})
-		w := &pvWorld{emit: emit, faults: map[string]bool{}, hit: map[string]bool{}, segs: s.Segs}
+		emit(map[string]any{"ev": "Reset", "proc": pvProc, "store": s.Store, "cycles": s.Cycles, "sched": n, "all": pvAll(s.Segs, s.Parts)})
+		w := &pvWorld{emit: emit, faults: map[string]bool{}, hit: map[string]bool{}, asked: map[string]bool{}, segs: s.Segs, parts: s.Parts, lease: -1}
 		for _, k := range s.Faults {
 			w.faults[k] = true
 		}
 		synctest.Test(t, func(t *testing.T) {
-			st := &pvStore{w: w}
+			w.start = time.Now()
+			st := &pvStore{w: w, offs: map[int32]int64{}}
 			if s.Store == "noop" {
 				st.inner = pvPlaceholderStore()
 			}
@@ -248,7 +384,7 @@ func TestVerifProcessorReplay(t *testing.T) {
 				if w.cyc != c {
 					w.bad = fmt.Sprintf("after %d ticks the loop has listed %d times", c, w.cyc)
 				}
-				emit(map[string]any{"ev": "CycleEnd", "c": c})
+				emit(map[string]any{"ev": "CycleEnd", "c": c, "lease": w.lease})
 				w.mu.Unlock()
 			}
 			cancel()
@@ -271,10 +407,14 @@ func TestVerifProcessorReplay(t *testing.T) {
 	t.Logf("replayed %d schedules", n)
 }
 
-func pvAll(segs [][]int) []int {
-	out := []int{}
-	for _, s := range segs {
-		out = append(out, s...)
+// pvAll: offsets of all records per partition (index = partition)
+func pvAll(segs [][]int, parts []int) [][]int {
+	out := [][]int{}
+	for i, s := range segs {
+		for len(out) <= parts[i] {
+			out = append(out, []int{})
+		}
+		out[parts[i]] = append(out[parts[i]], s...)
 	}
 	return out
 }
